@@ -1050,6 +1050,224 @@ def ssa_split(func, counter):
     return changed
 
 
+def split_webs(func, counter):
+    """Reaching definitions over the structured body: definitions of a local that never meet at a read are different
+    variables sharing a name; each such group (web) gets its own name.  Reaching sets are over-approximated (loops, try), which
+    only merges more."""
+    params = set(_params(func))
+    if any(isinstance(n, (ast.Global, ast.Nonlocal)) for n in ast.walk(func)):
+        return False
+    # names touched in nested scopes are left alone
+    nested = set()
+    for n in ast.walk(func):
+        if n is not func and isinstance(n, (ast.FunctionDef, ast.AsyncFunctionDef, ast.Lambda, ast.ClassDef, ast.GeneratorExp, ast.ListComp, ast.SetComp, ast.DictComp)):
+            nested |= {x.id for x in ast.walk(n) if isinstance(x, ast.Name)}
+    parent = {}
+
+    def find(a):
+        while parent.get(a, a) != a:
+            parent[a] = parent.get(parent[a], parent[a])
+            a = parent[a]
+        return a
+
+    def union(a, b):
+        ra, rb = find(a), find(b)
+        if ra != rb:
+            parent[ra] = rb
+    def_nodes = {}        # def id -> (name, node)
+    use_sets = []         # (Name node, frozenset of def ids)
+    ENTRY = 'entry'
+
+    def merge(*envs):
+        out = {}
+        for e in envs:
+            if e is None:
+                continue
+            for k, v in e.items():
+                out[k] = out.get(k, frozenset()) | v
+        return out
+
+    def uses_in(expr, env):
+        if expr is None:
+            return
+        for n in ast.walk(expr):
+            if isinstance(n, ast.Name) and isinstance(n.ctx, ast.Load):
+                use_sets.append((n, env.get(n.id, frozenset([(ENTRY, n.id)]))))
+
+    def define(target, env):
+        for n in ast.walk(target):
+            if isinstance(n, ast.Name) and isinstance(n.ctx, (ast.Store, ast.Del)):
+                d = (id(n), n.id)
+                def_nodes[d] = n
+                env[n.id] = frozenset([d])
+            elif isinstance(n, ast.Name):
+                uses_in(n, env)
+        # sub-expressions of attribute / subscript targets are reads
+        for n in ast.walk(target):
+            if isinstance(n, (ast.Attribute, ast.Subscript)):
+                for c in ast.iter_child_nodes(n):
+                    if isinstance(c, ast.expr) and not (isinstance(c, ast.Name) and isinstance(c.ctx, ast.Store)):
+                        pass
+        return env
+
+    class Leave(Exception):
+        pass
+
+    def flow(stmts, env, loop):
+        """returns env after the block or None if the block always leaves; loop: dict collecting 'continue' / 'break' envs"""
+        env = dict(env)
+        for st in stmts:
+            if isinstance(st, ast.Assign):
+                uses_in(st.value, env)
+                for t in st.targets:
+                    for n in ast.walk(t):
+                        if isinstance(n, ast.Name) and isinstance(n.ctx, ast.Load):
+                            uses_in(n, env)
+                    define(t, env)
+            elif isinstance(st, ast.AugAssign):
+                uses_in(st.value, env)
+                if isinstance(st.target, ast.Name):
+                    prev = env.get(st.target.id, frozenset([(ENTRY, st.target.id)]))
+                    d = (id(st.target), st.target.id)
+                    def_nodes[d] = st.target
+                    use_sets.append((st.target, prev | frozenset([d])))
+                    env[st.target.id] = frozenset([d])
+                else:
+                    uses_in(st.target, env)
+            elif isinstance(st, ast.AnnAssign):
+                uses_in(st.value, env)
+                if st.value is not None:
+                    define(st.target, env)
+            elif isinstance(st, (ast.Expr, ast.Return, ast.Raise, ast.Assert, ast.Delete)):
+                for c in ast.iter_child_nodes(st):
+                    if isinstance(c, ast.expr):
+                        uses_in(c, env)
+                if isinstance(st, (ast.Return, ast.Raise)):
+                    return None
+            elif isinstance(st, ast.Continue):
+                if loop is not None:
+                    loop['continue'].append(env)
+                return None
+            elif isinstance(st, ast.Break):
+                if loop is not None:
+                    loop['break'].append(env)
+                return None
+            elif isinstance(st, ast.If):
+                uses_in(st.test, env)
+                a = flow(st.body, env, loop)
+                b = flow(st.orelse, env, loop)
+                if a is None and b is None:
+                    return None
+                env = merge(a, b)
+            elif isinstance(st, (ast.For, ast.AsyncFor, ast.While)):
+                if isinstance(st, ast.While):
+                    head_expr, target = st.test, None
+                else:
+                    head_expr, target = st.iter, st.target
+                    uses_in(st.iter, env)
+                inner = {'continue': [], 'break': []}
+                cur = dict(env)
+                out_body = None
+                for _ in range(3):
+                    e0 = dict(cur)
+                    if isinstance(st, ast.While):
+                        uses_in(st.test, e0)
+                    if target is not None:
+                        define(target, e0)
+                    inner = {'continue': [], 'break': []}
+                    out_body = flow(st.body, e0, inner)
+                    nxt = merge(cur, out_body, *inner['continue'])
+                    if nxt == cur:
+                        break
+                    cur = nxt
+                e_else = flow(st.orelse, cur, loop) if st.orelse else cur
+                env = merge(e_else, *inner['break']) if (e_else is not None or inner['break']) else None
+                if env is None:
+                    return None
+            elif isinstance(st, ast.Try):
+                snap = [dict(env)]
+                e = dict(env)
+                body_out = e
+                for s_ in st.body:
+                    body_out = flow([s_], body_out, loop) if body_out is not None else None
+                    if body_out is not None:
+                        snap.append(dict(body_out))
+                hin = merge(*snap)
+                outs = []
+                for h in st.handlers:
+                    he = dict(hin)
+                    uses_in(h.type, he)
+                    if h.name:
+                        d = (id(h), h.name)
+                        def_nodes[d] = h
+                        he[h.name] = frozenset([d])
+                    outs.append(flow(h.body, he, loop))
+                e_else = flow(st.orelse, body_out, loop) if (st.orelse and body_out is not None) else body_out
+                live = [x for x in [e_else] + outs if x is not None]
+                env = merge(*live) if live else None
+                if st.finalbody:
+                    fin_in = merge(hin, *(live or [hin]))
+                    env2 = flow(st.finalbody, fin_in, loop)
+                    env = env2 if env is not None else None
+                if env is None:
+                    return None
+            elif isinstance(st, (ast.With, ast.AsyncWith)):
+                for it in st.items:
+                    uses_in(it.context_expr, env)
+                    if it.optional_vars is not None:
+                        define(it.optional_vars, env)
+                env = flow(st.body, env, loop)
+                if env is None:
+                    return None
+            elif isinstance(st, (ast.FunctionDef, ast.AsyncFunctionDef, ast.ClassDef, ast.Import, ast.ImportFrom, ast.Pass, ast.Global, ast.Nonlocal)):
+                pass
+            else:
+                raise NotCanonicalisable('flow: ' + type(st).__name__)
+        return env
+
+    try:
+        flow(func.body, {}, None)
+    except NotCanonicalisable:
+        return False
+    for node, rs in use_sets:
+        rs = list(rs)
+        for d in rs[1:]:
+            union(rs[0], d)
+    by_name = {}
+    for d, node in def_nodes.items():
+        by_name.setdefault(d[1], set()).add(find(d))
+    changed = False
+    for name, roots in by_name.items():
+        if name in nested or len(roots) < 2:
+            continue
+        entry_root = find((ENTRY, name)) if (ENTRY, name) in parent or name in params else None
+        if name in params:
+            entry_root = find((ENTRY, name))
+        ren = {}
+        for r in sorted(roots, key=str):
+            if r == entry_root:
+                continue
+            counter[0] += 1
+            ren[r] = f'{name}__w{counter[0]}'
+        if not ren:
+            continue
+        for d, node in def_nodes.items():
+            if d[1] == name and find(d) in ren:
+                if isinstance(node, ast.ExceptHandler):
+                    node.name = ren[find(d)]
+                else:
+                    node.id = ren[find(d)]
+        for node, rs in use_sets:
+            if node.id == name or (isinstance(node, ast.Name) and node.id.startswith(name + '__w')):
+                pass
+            if isinstance(node, ast.Name) and rs:
+                r0 = find(next(iter(rs)))
+                if next(iter(rs))[1] == name and r0 in ren:
+                    node.id = ren[r0]
+        changed = True
+    return changed
+
+
 def copy_propagate(func):
     """`x = p` (p a parameter or local that is not used afterwards, x defined only here): x is p under another name"""
     changed = False
@@ -1490,6 +1708,7 @@ def canonical(func, helpers=None, consts=None, sized=None, cls_name=None, props=
         for _ in range(8):
             a = _split_ifexp(f)
             d = ssa_split(f, counter)
+            d = split_webs(f, counter) or d
             b = copy_propagate(f)
             c = inline_temps(f)
             e = inline_next_use(f)
